@@ -60,6 +60,7 @@ type l1ChainGen struct {
 	pendEv   map[uint64][]any
 	pendSts  map[uint64]*l1State
 	noise    bool
+	generic  bool // also emit generic watched logs (for a second syncer sharing the reorg detector)
 }
 
 func newL1ChainGen(g *rand.Rand, eventPct int, v2 bool) *l1ChainGen {
@@ -133,6 +134,9 @@ func (l *l1ChainGen) gen(num uint64, parentHash common.Hash, ts uint64) []fakes.
 				}
 			}
 		}
+	}
+	if l.generic && g.Intn(3) == 0 {
+		logs = append(logs, genericLogs(g, 1+g.Intn(2), false)...)
 	}
 	l.pendEv[num] = evs
 	l.pendSts[num] = st
